@@ -520,15 +520,16 @@ def _r3_structural(run: Run, src, patterns=True):
                   f'the report stores `{ast.unparse(st.value)[:40]}`', fact='the fragment list', loc=loc_of(pf.module.path, st))
 
 def run(run: Run):
+    from .common import cached_guard as _cached_guard
     src = get_source()
     cg = get_callgraph(src)
     run.rule('C19.R1', 'report key = sheet title, column letters, 1-based row of the cell under test')
     run.rule('C19.R2', 'gate placement, gate condition, only the gate raises, payload kept')
     run.rule('C19.R3', 'what is collected: call pattern, exemption pattern, selection, every cell tested')
     run.rule('C19.R4', 'the report map is workbook-wide (shared with C18.R2 accumulator discipline)')
-    run.guard('C19.R1', r1, run, src)
-    run.guard('C19.R2', r2, run, src, cg)
-    run.guard('C19.R3', r3, run, src)
+    _cached_guard(run, 'C19.R1', r1, src)
+    _cached_guard(run, 'C19.R2', r2, src, cg)
+    _cached_guard(run, 'C19.R3', r3, src)
     borrow(run, 'C19.R4', c18.r2_any, src)
     from . import c09
     run.rule('C19.R6', 'switching the check on takes effect on the next translation: the setter raises the flag on every path, the '
@@ -537,11 +538,11 @@ def run(run: Run):
     run.floor('C19.R6', 8)
     from .common import check_mutable_defaults
     run.rule('C19.R5', 'nothing collected for one workbook survives into the report of the next (no mutable default changed or handed out)')
-    run.guard('C19.R5', check_mutable_defaults, run, 'C19.R5', src)
+    _cached_guard(run, 'C19.R5', check_mutable_defaults, 'C19.R5', src)
     run.floor('C19.R5', 5)
     from .common import check_rejections_propagate
     run.rule('C19.R7', 'the safety exception reaches the caller: no handler on the translation path turns it into a value')
-    run.guard('C19.R7', check_rejections_propagate, run, 'C19.R7', src, cg, ['Excel.is_safe'], 'a workbook with Python-like cells')
+    _cached_guard(run, 'C19.R7', check_rejections_propagate, 'C19.R7', src, cg, ['Excel.is_safe'], 'a workbook with Python-like cells')
     run.floor('C19.R7', 50)
     run.floor('C19.R1', 2)
     run.floor('C19.R2', 9)
